@@ -15,9 +15,11 @@
 (*                              before it saw the call return                *)
 (*   {"ev":"Return","outcome":"primes"|"cancelled"|"entropy","count":k}      *)
 (*       the value the call returned (class of the error, number of pairs)   *)
-(*   {"ev":"Settled","lib_goroutines":g,"reader_failed":b}                   *)
+(*   {"ev":"Settled","lib_goroutines":g,"late_reads":r,"reader_failed":b}    *)
 (*       g  goroutines with runGenPrimeRoutine frames left after the settle  *)
-(*          loop; b  whether the reader ever returned its error              *)
+(*          loop; r  reads of the entropy source after the call had returned *)
+(*          (a producer still running then); b  whether the reader ever      *)
+(*          returned its error                                               *)
 (* The goroutines' own steps cannot be observed; they are the hidden steps   *)
 (* of the model between two lines.  A recorded call is explained iff the     *)
 (* model, started in the configuration of the Call line, has a behaviour     *)
@@ -25,9 +27,8 @@
 (* state the Settled line describes.  Identical calls are recorded once.     *)
 (* An entropy source that fails after some bytes is modelled by the budget   *)
 (* n (enough reads for n primes, then failure): every externally visible     *)
-(* result of a larger or smaller positive budget is also one of budget n or  *)
-(* of budget 0 < n.. (1..n-1 can only yield the error, which budget n yields *)
-(* too).                                                                     *)
+(* result of any positive budget is also a result of budget n (a budget      *)
+(* below n can only yield the error, which budget n yields too).             *)
 EXTENDS SafePrimeGen, Sequences, Json, IOUtils
 
 TraceFile == IF "TRACE" \in DOMAIN IOEnv THEN IOEnv.TRACE ELSE "trace.ndjson"
@@ -80,7 +81,7 @@ TraceSettled ==
   /\ phase = "returned"
   /\ IsEvent("Settled")
   /\ Quiescent /\ ~sendPanic
-  /\ LET e == TraceLog[l] IN e.lib_goroutines = 0 /\ (e.reader_failed <=> readFailed)
+  /\ LET e == TraceLog[l] IN e.lib_goroutines = 0 /\ e.late_reads = 0 /\ (e.reader_failed <=> readFailed)
   /\ phase' = "idle"
   /\ UNCHANGED vars
 
